@@ -142,6 +142,27 @@ func runCase(env *vlib.Env, idx int, rep *vlib.Reporter) {
 		}
 	})
 	for i := 0; i < perCase; i++ {
+		if i == perCase/2 && idx%2 == 0 && me >= 0 {
+			// the key generation state changes while the node (and its handler objects) lives on:
+			// whatever a handler remembers, the verdicts must follow the database
+			from := st.db
+			switch st.db {
+			case gossipnet.StateFailedDKG: // the failed key generation is re-run successfully as a newer eon
+				_ = dbfix.InsertEon(ctx, node.Pool, wa.EonNo+1, 5, wa.Activation, wa.CfgIndex)
+				_ = dbfix.InsertDKGResult(ctx, node.Pool, wa.EonNo+1, wa.Eon.DKGResult(uint64(wa.EonNo+1), me))
+				st.db = gossipnet.StateRestartedDKG
+			case gossipnet.StateNoDKGResult: // the running key generation finishes successfully
+				_ = dbfix.InsertDKGResult(ctx, node.Pool, wa.EonNo, wa.Eon.DKGResult(uint64(wa.EonNo), me))
+				st.db = gossipnet.StateMemberSuccess
+			case gossipnet.StateMemberSuccess: // a newer key generation for the same set starts
+				_ = dbfix.InsertEon(ctx, node.Pool, wa.EonNo+1, 5, wa.Activation, wa.CfgIndex)
+				st.db = gossipnet.StateNewerPending
+			}
+			if st.db != from {
+				rep.Obs("state_transitions_during_case", 1)
+				rep.Obs("transition_"+string(from)+"->"+string(st.db), 1)
+			}
+		}
 		g := genMessage(r, w, n, storedHint)
 		want := g.expect(w, st, me, setBKnown, storedVal)
 		desc := fmt.Sprintf("flavour=%s state=%s stored=%s me=%d %s", flavour, st.db, st.stored, me, g.label)
